@@ -190,7 +190,7 @@ impl ParamSpec {
     /// the smallest denormal is added with the same sign.
     pub fn grid(&self) -> Vec<f64> {
         let mut g = vec![self.default];
-        let mut push = |g: &mut Vec<f64>, v: f64| {
+        let push = |g: &mut Vec<f64>, v: f64| {
             if v.is_finite() && !g.iter().any(|w| w.to_bits() == v.to_bits()) {
                 g.push(v);
             }
